@@ -6,13 +6,16 @@ from vcheck import Case, hx, parse_vals, compare_lines, tokf
 PID = "C03"
 EPS = 2.0 ** -53
 TRACE_CAP = 520          # harness and driver print the full trace up to this many evaluations, else min/max
-RULE = ("one case = one call Integrate(f,a,b,eps,depth) (ops swap/epssign: two calls); non-trivial = the recursion tree has at least "
-        "one split node (more than 5 integrand evaluations) or a leaf forced by the depth limit (non-convergence warning); "
-        "distinct by case text")
+RULE = ("one case = one call Integrate(f,a,b,eps,depth) (ops swap/epssign: two calls; op seq: two to six calls of Integrate with explicit "
+        "or default depth, of the \"Adaptive-Simpson\" string overload and of Find_Epsilon made in one process); non-trivial = the recursion "
+        "tree of at least one call has a split node (more than 5 integrand evaluations) or a leaf forced by the depth limit "
+        "(non-convergence warning); distinct by case text")
 LEVEL_TEXT = ("Theorems (Coq, over the reals, for all inputs): exactness on every polynomial of degree <= 5 for every epsilon, depth and "
               "pair of limits; swapping the limits negates the value; equal limits give 0 without evaluating; the sign of epsilon is "
               "irrelevant; every evaluation abscissa lies in [min(a,b),max(a,b)] and there are at most 2^(depth+2)+1 of them, for every "
-              "integrand. The 4*epsilon error bound is a theorem at full strength (C03_error_bound): for every integrand with four derivatives "
+              "integrand; the same for the default depth and for the \"Adaptive-Simpson\" method of the string overload; in a sequence of "
+              "calls made in one process every answer is the answer of that call made alone (the model's state is empty, and the "
+              "correspondence check runs such sequences through the library). The 4*epsilon error bound is a theorem at full strength (C03_error_bound): for every integrand with four derivatives "
               "on an open interval containing the range whose fourth derivative keeps one sign and varies by at most a factor four, every "
               "depth and epsilon, whenever no non-convergence warning is raised; the remainder of Simpson's rule it rests on is proved "
               "(C03_simpson_remainder), not assumed. Not theorems: 'to rounding' / 'plus rounding' (the theorems are about exact real "
@@ -44,7 +47,10 @@ def _wrap(fn):
     return g
 def _pow(a, c):
     try: return math.pow(a, c)
-    except ValueError: return math.nan
+    except ValueError:
+        if a == 0 and c < 0:      # pole: C's pow gives +-inf (math.pow raises)
+            return -math.inf if (math.copysign(1.0, a) < 0 and c == int(c) and int(c) % 2) else math.inf
+        return math.nan
     except OverflowError: return math.inf
 def _log(a):
     if a == 0: return -math.inf
@@ -101,9 +107,9 @@ def simulate_count(f, a, b, eps, depth, cap):
 
 # ---------------------------------------------------------------- generators
 def C(v): return "c " + hx(v)
-def horner(cs):
+def horner(cs, arg="x"):
     e = C(cs[-1])
-    for c in reversed(cs[:-1]): e = f"+ {C(c)} * x {e}"
+    for c in reversed(cs[:-1]): e = f"+ {C(c)} * {arg} {e}"
     return e
 def powsum(cs):
     terms = [C(cs[0])] + [f"* {C(c)} " + ("x" if k == 1 else f"pow x {hx(float(k))}") for k, c in enumerate(cs) if k >= 1]
@@ -112,8 +118,20 @@ def powsum(cs):
     return e
 
 
-def rand_interval(rng):
+def rand_interval(rng, far=False):
+    """widths 1e-6..1e3 (the quantifier); location: at / around the origin or |x0| = 1e-3..1e3; with far=True a geometric
+    ladder of |x0|/width = 1e0..1e15.5, i.e. down to intervals a few ulps wide (x0 up to ~1e18)"""
     w = 10 ** rng.uniform(-6, 3)
+    if far:
+        x0 = rng.choice([-1, 1]) * w * 10 ** rng.uniform(0, 15.5)
+        if rng.random() < 0.3 and 1 <= abs(x0) < 2 ** 62: x0 = float(round(x0))      # round numbers such as 4e6
+        a, b = x0, x0 + w
+        if b == a: b = math.nextafter(a, math.inf)
+        if rng.random() < 0.15:       # exactly k ulps wide, k = 1, 2, 3, 4, 8, odd / even (width still within 1e-6..1e3)
+            a = rng.choice([-1, 1]) * 10 ** rng.uniform(10, 18); b = a
+            for _ in range(rng.choice([1, 2, 3, 4, 7, 8, 33, 1024])): b = math.nextafter(b, math.inf)
+            if not (1e-6 <= b - a <= 1e3): b = a + min(max(b - a, 1e-6), 1e3)
+        return a, b
     r = rng.random()
     if r < 0.25: x0 = 0.0
     elif r < 0.5: x0 = -w * rng.random()          # contains 0
@@ -132,8 +150,12 @@ def rand_eps(rng, scale=None):
     return e * rng.choice([1, 1, 1, -1])
 
 
+def fam_text(fam, params, fx):
+    return f"{fam} {len(params)} " + " ".join(hx(p) for p in params) + (" " if params else "") + fx
+
+
 def fam_line(op, a, b, eps, depth, fam, params, fx):
-    return f"{op} {hx(a)} {hx(b)} {hx(eps)} {depth} {fam} {len(params)} " + " ".join(hx(p) for p in params) + (" " if params else "") + fx
+    return f"{op} {hx(a)} {hx(b)} {hx(eps)} {depth} " + fam_text(fam, params, fx)
 
 
 def gen_quintic(rng, dmax):
@@ -148,27 +170,56 @@ def gen_quintic(rng, dmax):
     return a, b, eps, depth, "quintic", cs, fx
 
 
-def gen_regular(rng, dmax):
+def gen_qshift(rng, dmax, far=True):
+    """polynomial of degree <= 5 in t = x - s with coefficients on the natural scale of the interval (c_k ~ width^-k), so that
+    all six terms matter on a narrow interval far from the origin; s at / near the interval or 0"""
+    a, b = rand_interval(rng, far=far)
+    w = b - a
+    s = rng.choice([a, a, b, (a + b) / 2, a + w * rng.uniform(-2, 3), a - w * 10 ** rng.uniform(0, 3), 0.0])
+    deg = rng.choice([0, 1, 2, 3, 4, 5, 5, 5])
+    T = max(abs(a - s), abs(b - s), w)
+    cs = [(rng.choice([-1, 1]) * 10 ** rng.uniform(-3, 3) / T ** k if rng.random() < 0.85 else 0.0) if k <= deg else 0.0 for k in range(6)]
+    if rng.random() < 0.2: cs = [float(rng.randint(-9, 9)) / 4 if k <= deg else 0.0 for k in range(6)]
+    cs = [c if abs(c) < 1e250 else 0.0 for c in cs]
+    fmax = sum(abs(c) * T ** k for k, c in enumerate(cs))
+    eps = rand_eps(rng, w * fmax)
+    depth = rng.choice([0, 1, 2, 3, 5, 8, dmax, rng.randint(0, dmax)])
+    fx = horner(cs, f"- x {C(s)}")
+    if rng.random() < 0.3: a, b = b, a
+    return a, b, eps, depth, "qshift", [s] + cs, fx
+
+
+def gen_regular(rng, dmax, far=False):
     fam = rng.choice(["exp", "cosh", "invpow", "pow"])
+    if far and fam == "pow": fam = "exp"
     if fam == "exp":
-        a, b = rand_interval(rng); w = rng.choice([-1, 1]) * rng.uniform(0.05, 0.999) * math.log(4) / (b - a)
-        if abs(w) * max(abs(a), abs(b)) > 300:      # keep exp(wx) in range: move the interval towards the origin
+        a, b = rand_interval(rng, far); w = rng.choice([-1, 1]) * rng.uniform(0.05, 0.999) * math.log(4) / (b - a)
+        s = 0.0
+        if far: s = rng.choice([a, b, (a + b) / 2])
+        elif abs(w) * max(abs(a), abs(b)) > 300:      # keep exp(wx) in range: move the interval towards the origin
             wd = b - a; a = rng.uniform(-1, 1) * 100 / abs(w); b = a + wd
-        fx = f"exp * {C(w)} x"; params = [w]; sc = abs(b - a) * max(math.exp(w * a), math.exp(w * b))
+        if far: fx = f"exp * {C(w)} - x {C(s)}"; params = [w, s]
+        else: fx = f"exp * {C(w)} x"; params = [w]
+        sc = abs(b - a) * max(math.exp(w * (a - s)), math.exp(w * (b - s)))
     elif fam == "cosh":
-        a, b = rand_interval(rng); w = rng.uniform(0.05, 0.999) * math.log(4) / (b - a)
-        X = max(abs(a), abs(b))
-        if a < 0 < b and rng.random() < 0.7: w = rng.uniform(0.3, 0.999) * math.acosh(4) / X    # the ratio is cosh(wX)/1
+        a, b = rand_interval(rng, far); w = rng.uniform(0.05, 0.999) * math.log(4) / (b - a)
+        s = 0.0
+        if far: s = rng.choice([a, b, (a + b) / 2, a + (b - a) * rng.random()])
+        X = max(abs(a - s), abs(b - s))
+        if a - s < 0 < b - s and rng.random() < 0.7: w = rng.uniform(0.3, 0.999) * math.acosh(4) / X    # the ratio is cosh(wX)/1
         if w * X > 300: w = 300 / X
-        fx = f"cosh * {C(w)} x"; params = [w]; sc = abs(b - a) * math.cosh(w * X)
+        if far: fx = f"cosh * {C(w)} - x {C(s)}"; params = [w, s]
+        else: fx = f"cosh * {C(w)} x"; params = [w]
+        sc = abs(b - a) * math.cosh(w * X)
     elif fam == "invpow":
         k = rng.choice([1.0, 2.0, 3.0, 4.0, 0.5, 1.5, 2.5, rng.uniform(0.1, 6)])
         t = 10 ** rng.uniform(-3, 3); rho = 4 ** (1 / (k + 4))
         wd = t * rng.uniform(0.05, 0.999) * (rho - 1)
         s = rng.choice([0.0, t * rng.uniform(-100, 100), rng.choice([-1, 1]) * 10 ** rng.uniform(-3, 3)])
         if abs(s) > 1e3 * t: s = 0.0
+        if far: s = rng.choice([-1, 1]) * t * 10 ** rng.uniform(0, 13)
         a = t - s; b = a + wd
-        if not (a + s > 0 and b > a): return None
+        if not (a + s > 0 and b > a and (b + s) / (a + s) < rho): return None
         fx = f"pow + x {C(s)} {hx(-k)}"; params = [s, k]; sc = abs(b - a) * (a + s) ** (-k)
     else:
         p = rng.choice([4.0, 5.0, 6.0, 7.0, -1.0, -2.0, 0.5, 1.5, 2.5, 3.5, rng.uniform(-3, 8)])
@@ -186,29 +237,120 @@ def gen_regular(rng, dmax):
     return a, b, eps, depth, fam, params, fx
 
 
-def gen_any(rng, dmax):
-    a, b = rand_interval(rng)
+SMOOTH_KINDS = ["step", "pwl", "abs", "sin", "runge", "sqrtabs", "erf", "tanh", "log", "sinexp", "stepsum"]
+SING_KINDS = ["pole-sqrt", "pole-1", "pole-log", "nan-point", "nan-half", "pole-both", "huge"]
+
+
+def any_fx(rng, kind, a, b):
+    """integrand text of the given kind for the (ordered) interval [a,b]"""
     w = b - a; m = a + w * rng.random()
-    kind = rng.choice(["step", "pwl", "abs", "sin", "runge", "sqrtabs", "erf", "tanh", "log", "sinexp", "stepsum"])
-    if kind == "step": fx = f"step - x {C(m)}"
-    elif kind == "stepsum": fx = f"+ step - x {C(m)} * {C(-2.5)} step - x {C(a + w * rng.random())}"
-    elif kind == "pwl":
+    if kind == "step": return f"step - x {C(m)}"
+    if kind == "stepsum": return f"+ step - x {C(m)} * {C(-2.5)} step - x {C(a + w * rng.random())}"
+    if kind == "pwl":
         n = rng.randint(2, 7); xs = sorted(a + w * rng.uniform(-0.1, 1.1) for _ in range(n))
         if len(set(xs)) < n: xs = [a + w * k / (n - 1) for k in range(n)]
+        if len(set(xs)) < n: return f"abs - x {C(m)}"
         ys = [rng.uniform(-3, 3) * rng.choice([1, 1, 10]) for _ in range(n)]
-        fx = f"pwl {n} " + " ".join(f"{hx(u)} {hx(v)}" for u, v in zip(xs, ys)) + " x"
-    elif kind == "abs": fx = f"abs - x {C(m)}"
-    elif kind == "sin": fx = f"sin * {C(rng.uniform(0.5, 60) / w)} x"
-    elif kind == "runge": fx = f"/ c 0x1p+0 + c 0x1p+0 * {C(rng.uniform(1, 400) / (w * w))} * - x {C(m)} - x {C(m)}"
-    elif kind == "sqrtabs": fx = f"sqrt abs - x {C(m)}"
-    elif kind == "erf": fx = f"erf * {C(rng.uniform(1, 50) / w)} - x {C(m)}"
-    elif kind == "tanh": fx = f"tanh * {C(rng.uniform(1, 200) / w)} - x {C(m)}"
-    elif kind == "log": fx = f"log abs - x {C(a - w * rng.uniform(0.001, 1))}"
-    else: fx = f"* sin * {C(rng.uniform(1, 30) / w)} x exp * {C(rng.uniform(-3, 3) / w)} - x {C(m)}"
-    eps = rand_eps(rng, w)
+        return f"pwl {n} " + " ".join(f"{hx(u)} {hx(v)}" for u, v in zip(xs, ys)) + " x"
+    if kind == "abs": return f"abs - x {C(m)}"
+    if kind == "sin": return f"sin * {C(rng.uniform(0.5, 60) / w)} - x {C(a)}"
+    if kind == "runge": return f"/ c 0x1p+0 + c 0x1p+0 * {C(rng.uniform(1, 400) / (w * w))} * - x {C(m)} - x {C(m)}"
+    if kind == "sqrtabs": return f"sqrt abs - x {C(m)}"
+    if kind == "erf": return f"erf * {C(rng.uniform(1, 50) / w)} - x {C(m)}"
+    if kind == "tanh": return f"tanh * {C(rng.uniform(1, 200) / w)} - x {C(m)}"
+    if kind == "log": return f"log abs - x {C(a - w * rng.uniform(0.001, 1))}"
+    if kind == "sinexp": return f"* sin * {C(rng.uniform(1, 30) / w)} - x {C(a)} exp * {C(rng.uniform(-3, 3) / w)} - x {C(m)}"
+    # integrands that are not finite at points the integrator evaluates: the limits, the midpoint, the quarter points
+    # (computed with the integrator's own expressions), an eighth point, or a generic interior point
+    c = (a + b) / 2; d = (a + c) / 2; e = (b + c) / 2
+    p = rng.choice([a, a, b, b, c, d, e, (a + d) / 2, m])
+    dist = f"abs - x {C(p)}"
+    if kind == "pole-sqrt": return f"pow {dist} {hx(-rng.choice([0.5, 0.25, 0.75]))}"
+    if kind == "pole-1": return f"/ {C(rng.choice([-1.0, 1.0, w]))} - x {C(p)}"
+    if kind == "pole-log": return f"log {dist}"
+    if kind == "nan-point": return f"+ {C(1.0)} / - x {C(p)} - x {C(p)}"            # 0/0 at p only, 2 elsewhere
+    if kind == "nan-half": return f"sqrt - x {C(p)}"                               # nan left of p
+    if kind == "pole-both": return f"* pow - x {C(a)} {hx(-0.25)} pow - {C(b)} x {hx(-0.25)}"
+    return f"* {C(rng.choice([1e300, 1e-300, 1e154, 1e308]))} + {C(1.0)} * {C(1 / w)} - x {C(m)}"   # overflow / underflow of the estimates
+
+
+def gen_any(rng, dmax, far=False, kinds=None):
+    a, b = rand_interval(rng, far)
+    kind = rng.choice(kinds or (SMOOTH_KINDS + SMOOTH_KINDS + SING_KINDS))
+    fx = any_fx(rng, kind, a, b)
+    eps = rand_eps(rng, b - a)
     depth = rng.choice([0, 1, 2, 4, 7, dmax, rng.randint(0, dmax), rng.randint(-3, 0)])
     if rng.random() < 0.4: a, b = b, a
     return a, b, eps, depth, "any", [], fx
+
+
+# ---------------------------------------------------------------- sequences of calls in one process
+DEFAULT_DEPTH = 20
+
+
+def py_find_epsilon(f, a, b, prec):
+    c = (a + b) / 2; h = b - a; fa = f(a); fb = f(b); fc = f(c)
+    return prec * ((h / 6) * (fa + 4 * fc + fb))
+
+
+def gen_seq(rng, dmax, cap):
+    """2..6 calls drawn from a small pool of limits (one interval, its reversal, sometimes its left half) and of integrands
+    (a polynomial / estimator-regular one whose clauses are evaluated, and others), so that consecutive calls share limits,
+    integrand, both or neither; kinds: Find_Epsilon, Integrate with explicit depth, with the default depth, string overload;
+    epsilon a number or the value returned by the latest Find_Epsilon (@)"""
+    r = rng.random()
+    base = None
+    while base is None:
+        base = (gen_quintic(rng, dmax) if r < 0.3 else gen_qshift(rng, dmax, far=rng.random() < 0.5) if r < 0.5
+                else gen_regular(rng, dmax, far=rng.random() < 0.2) if r < 0.8 else gen_any(rng, dmax))
+    a, b, eps0, depth0, fam, params, fx = base
+    lo, hi = min(a, b), max(a, b)
+    limits = [(a, b), (a, b), (b, a)]
+    if rng.random() < 0.3 and (lo + hi) / 2 not in (lo, hi): limits.append((lo, (lo + hi) / 2))
+    funs = [(fam, params, fx)]
+    for _ in range(rng.choice([1, 1, 2])):
+        q = rng.random()
+        if q < 0.35:
+            cs = [rng.uniform(-3, 3) for _ in range(rng.randint(1, 6))]; cs += [0.0] * (6 - len(cs))
+            funs.append(("qshift", [lo] + cs, horner(cs, f"- x {C(lo)}")))
+        elif q < 0.5: funs.append(("any", [], f"+ {C(10.0)} cos - x {C(lo)}"))
+        else: funs.append(("any", [], any_fx(rng, rng.choice(SMOOTH_KINDS + ["pole-sqrt", "huge"]), lo, hi)))
+    k = rng.randint(2, 6)
+    pattern = rng.random()
+    calls = []; last = None; text = []
+    for j in range(k):
+        la, lb = rng.choice(limits)
+        fm, pr, fxx = funs[0] if rng.random() < 0.5 else rng.choice(funs)
+        kind = rng.choice(["I", "I", "I", "D", "M", "F", "F"])
+        if pattern < 0.35:      # Find_Epsilon on a reference integrand, then Integrate on the same limits (same or other integrand)
+            if j == 0: kind = "F"; la, lb = limits[0] if rng.random() < 0.8 else limits[2]
+            elif j == 1:
+                kind = rng.choice(["I", "I", "D"]); la, lb = calls[0][1], calls[0][2]
+                if rng.random() < 0.6: fm, pr, fxx = rng.choice([f for f in funs if f[2] != calls[0][6]] or funs)
+        elif pattern < 0.5 and j > 0 and rng.random() < 0.7:     # the previous request again: identical, other depth, other integrand
+            pk, pa, pb, pe, pd, pfm, ppr, pfx = calls[-1][:8]
+            la, lb = pa, pb
+            if rng.random() < 0.5: fm, pr, fxx = pfm, ppr, pfx
+            if rng.random() < 0.5: kind = pk
+        f, _ = parse_fexpr(fxx.split(), 0)
+        if kind == "F":
+            prec = 10 ** rng.uniform(-12, -1)
+            last = py_find_epsilon(f, la, lb, prec)
+            calls.append(("F", la, lb, prec, 0, fm, pr, fxx)); text.append(f"F {hx(la)} {hx(lb)} {hx(prec)} " + fam_text(fm, pr, fxx))
+            continue
+        use_last = last is not None and rng.random() < 0.6
+        eps = last if use_last else (eps0 if rng.random() < 0.5 else rand_eps(rng, hi - lo))
+        depth = rng.choice([depth0, 0, 1, 3, 6, dmax])
+        if kind in ("D", "M"):     # cost control for the default depth 20: fall back to an explicit depth
+            e_eff = py_find_epsilon(f, min(la, lb), max(la, lb), 1e-9) if kind == "M" else eps
+            if not (e_eff == e_eff) or simulate_count(f, la, lb, e_eff, DEFAULT_DEPTH, cap) is None: kind = "I"
+        et = "@" if use_last else hx(eps)
+        if kind == "I": text.append(f"I {hx(la)} {hx(lb)} {et} {depth} " + fam_text(fm, pr, fxx))
+        elif kind == "D": text.append(f"D {hx(la)} {hx(lb)} {et} " + fam_text(fm, pr, fxx))
+        else: text.append(f"M {hx(la)} {hx(lb)} " + fam_text(fm, pr, fxx))
+        calls.append((kind, la, lb, eps, depth, fm, pr, fxx))
+    kinds = "".join(c[0] for c in calls)
+    return Case(f"seq {len(calls)} " + " ".join(text), ("seq", "seq:" + kinds[:2] + ("+" if len(kinds) > 2 else "")))
 
 
 def generate(rng, tier):
@@ -240,6 +382,24 @@ def generate(rng, tier):
         g = gen_any(rng, dmax)
         if big and k % 40 == 0: g = g[:3] + (rng.choice([15, 20, 25]),) + g[4:]
         add("int" if k % 5 else rng.choice(["swap", "epssign"]), g, ())
+    # intervals far from the origin relative to their width (ladder |x0|/width = 1 .. 1e15.5): shifted polynomials,
+    # shifted estimator-regular families, arbitrary integrands
+    nf = 12000 if big else 500
+    for k in range(nf):
+        add("int" if k % 10 else rng.choice(["swap", "epssign"]), gen_qshift(rng, dmax, far=k % 4 != 0), ("far",))
+    for k in range(nf // 2):
+        add("int", gen_regular(rng, dmax, far=True), ("far",))
+        add("int" if k % 5 else rng.choice(["swap", "epssign"]), gen_any(rng, dmax, far=True), ("far",))
+    # full recursion trees (the evaluation-count bound is attained): eps = 0 / the smallest of the quantifier, depths 0..7, every kind
+    # of integrand, half of them not finite somewhere on the grid
+    for k in range(6000 if big else 400):
+        a, b, eps, depth, fam, params, fx = gen_any(rng, dmax, far=k % 8 == 0, kinds=SING_KINDS if k % 2 else None)
+        eps = rng.choice([0.0, 0.0, 1e-18, -1e-18, 5e-324, 1e-300])
+        depth = rng.choice([0, 0, 1, 2, 3, 4, 5, 6, 7, -1])
+        cs.append(Case(fam_line("int" if k % 6 else rng.choice(["swap", "epssign"]), a, b, eps, depth, "any", [], fx), ("int", "full-tree")))
+    # several calls in one process
+    for k in range(8000 if big else 500):
+        cs.append(gen_seq(rng, dmax, 20000 if big else 3000))
     # equal limits, depth <= 0, eps = 0, nan integrand
     for _ in range(200 if big else 40):
         a, b, eps, depth, fam, params, fx = gen_any(rng, dmax)
@@ -248,6 +408,7 @@ def generate(rng, tier):
         cs.append(Case(fam_line("int", a, b, 0.0, rng.choice([0, 1, 3, 6]), "any", [], fx), ("int", "eps=0")))
         cs.append(Case(fam_line("swap", a, a, eps, depth, "any", [], fx), ("swap", "equal-limits")))
         cs.append(Case(fam_line("findeps", a, b, 10 ** rng.uniform(-12, -1), 0, "any", [], fx).replace(" 0 any", " any", 1), ("findeps",)))
+        cs.append(Case(f"seq 3 M {hx(a)} {hx(a)} any 0 {fx} D {hx(a)} {hx(a)} {hx(eps)} any 0 {fx} I {hx(a)} {hx(a)} {hx(eps)} {depth} any 0 {fx}", ("seq", "equal-limits")))
     cs.append(Case(fam_line("int", -1.0, 2.0, 1e-6, 6, "any", [], "log x"), ("int", "nan")))
     cs.append(Case(fam_line("int", 0.0, 1.0, 1e-6, 6, "any", [], "/ c 0x1p+0 x"), ("int", "inf")))
     return cs
@@ -259,6 +420,9 @@ def _split(line, op):
     t = line.split()
     if op == "int":
         return [(t[0], t[1], t[2], t[3:])] if len(t) >= 3 else None
+    if op == "seq":
+        if len(t) % 5: return None
+        return [(t[i], t[i + 1], t[i + 2], t[i + 3:i + 5]) for i in range(0, len(t), 5)]
     if len(t) != 6: return None
     return [(t[0], t[1], t[2], []), (t[3], t[4], t[5], [])]
 
@@ -282,32 +446,55 @@ def compare(c, io, mo, tol):
 
 
 # ---------------------------------------------------------------- S4
+def parse_family(t, k):
+    fam = t[k]; n = int(t[k + 1]); params = [tokf(x) for x in t[k + 2:k + 2 + n]]
+    return fam, params, k + 2 + n
+
+
 def parse_case(line):
     t = line.split(); op = t[0]
     if op == "findeps":
         a, b, p = (tokf(x) for x in t[1:4]); k = 4; eps, depth = p, 0
     else:
         a, b, eps = (tokf(x) for x in t[1:4]); depth = int(t[4]); k = 5
-    fam = t[k]; n = int(t[k + 1]); params = [tokf(x) for x in t[k + 2:k + 2 + n]]
-    return op, a, b, eps, depth, fam, params, t[k + 2 + n:]
+    fam, params, k = parse_family(t, k)
+    return op, a, b, eps, depth, fam, params, t[k:]
 
 
-def exact_quintic(cs, a, b):
-    A, B = Fraction(a), Fraction(b)
+def parse_seq(line):
+    """-> list of (kind, a, b, eps-or-'@'-or-precision, depth, fam, params, fexpr tokens)"""
+    t = line.split(); n = int(t[1]); i = 2; out = []
+    for _ in range(n):
+        kind = t[i]; a = tokf(t[i + 1]); b = tokf(t[i + 2]); i += 3
+        eps = None; depth = DEFAULT_DEPTH
+        if kind in ("I", "D"):
+            eps = "@" if t[i] == "@" else tokf(t[i]); i += 1
+        if kind == "I": depth = int(t[i]); i += 1
+        if kind == "F": eps = tokf(t[i]); i += 1
+        fam, params, i = parse_family(t, i)
+        _, j = parse_fexpr(t, i)
+        out.append((kind, a, b, eps, depth, fam, params, t[i:j])); i = j
+    return out
+
+
+def exact_quintic(cs, a, b, s=0.0):
+    A, B = Fraction(a) - Fraction(s), Fraction(b) - Fraction(s)
     return sum(Fraction(c) * (B ** (k + 1) - A ** (k + 1)) / (k + 1) for k, c in enumerate(cs))
 
 
 def analytic(fam, p, a, b):
     """(integral from a to b, max|f| on the interval, condition number of f w.r.t. x) — a<b"""
     if fam == "exp":
-        w = p[0]; I = math.exp(w * a) * math.expm1(w * (b - a)) / w
-        return I, max(math.exp(w * a), math.exp(w * b)), abs(w) * max(abs(a), abs(b))
+        w = p[0]; s = p[1] if len(p) > 1 else 0.0
+        I = math.exp(w * (a - s)) * math.expm1(w * (b - a)) / w
+        return I, max(math.exp(w * (a - s)), math.exp(w * (b - s))), abs(w) * max(abs(a), abs(b))
     if fam == "cosh":
-        w = p[0]; I = 2 * math.cosh(w * (a + b) / 2) * math.sinh(w * (b - a) / 2) / w
-        return I, math.cosh(w * max(abs(a), abs(b))), abs(w) * max(abs(a), abs(b))
+        w = p[0]; s = p[1] if len(p) > 1 else 0.0
+        I = 2 * math.cosh(w * ((a - s) + (b - s)) / 2) * math.sinh(w * (b - a) / 2) / w
+        return I, math.cosh(w * max(abs(a - s), abs(b - s))), abs(w) * max(abs(a), abs(b))
     if fam == "invpow":
         s, k = p; t = a + s; r = (b - a) / t
-        I = t * r if False else (math.log1p(r) if k == 1.0 else t ** (1 - k) * math.expm1((1 - k) * math.log1p(r)) / (1 - k))
+        I = (math.log1p(r) if k == 1.0 else t ** (1 - k) * math.expm1((1 - k) * math.log1p(r)) / (1 - k))
         return I, t ** (-k), k * (max(abs(a), abs(b)) + abs(s)) / t
     if fam == "pow":
         q = p[0]; r = (b - a) / a
@@ -316,9 +503,45 @@ def analytic(fam, p, a, b):
     return None
 
 
+def value_preds(op, a, b, eps, dn, fam, params, v, warn, leaves):
+    """the clauses about the returned value of one call Integrate(f,a,b,eps,depth>=0 = dn), a != b.
+    A-priori rounding slack (DESIGN 5.3), relative to h*max|f| per leaf and summed over the leaves (sum h = |b-a|):
+      ~25 eps per leaf (function value, abscissae, panel rule, Richardson) + one eps per level of the summation tree, factor >= 2
+      margin: (64 + 2 dn) eps |b-a| max|f|;
+      the abscissae are rounded with an absolute error up to eps*X (X = max(|a|,|b|)), which moves the nodes of a panel: (64 + 2 dn) eps
+      |b-a| X max|f'| (for a polynomial in x itself X max|f'| <= 5 sum |c_k| X^k, already contained in the first term);
+      a leaf whose sibling was split inherits the coarse estimate S = (h/12)(..) of its parent, computed with the parent's h/2 while
+      its own width is h/2 + delta, |delta| <= eps*X, the rounding error of the parent's midpoint: S is off by delta*mean(f), the
+      returned S2 + (S2 - S)/15 by delta*mean(f)/15 <= eps X max|f| / 15 for each such leaf (`leaves` = number of leaves of the tree,
+      (count-1)/4; nothing is inherited when the tree is a single leaf)."""
+    out = []
+    X = max(abs(a), abs(b)); wd = abs(b - a)
+    inh = (leaves if leaves > 1 else 0) * EPS * X / 15
+    fin = v == v and abs(v) != math.inf
+    if fam in ("quintic", "qshift"):
+        s, cs = (0.0, params) if fam == "quintic" else (params[0], params[1:])
+        I = exact_quintic(cs, a, b, s)
+        T = max(abs(a - s), abs(b - s))
+        fmax = sum(abs(cf) * T ** k for k, cf in enumerate(cs))
+        dfmax = sum(k * abs(cf) * T ** (k - 1) for k, cf in enumerate(cs) if k >= 1)
+        slack = (64 + 2 * dn) * EPS * wd * (fmax + (X * dfmax if fam == "qshift" else 0.0)) + inh * fmax
+        if not (slack == slack and slack != math.inf): return out
+        if not fin or not (abs(Fraction(v) - I) <= Fraction(slack)):
+            out.append((op + ":quintic-exact", f"polynomial of degree <= 5: returned {v!r}, exact integral {float(I)!r}, difference {float(abs(Fraction(v) - I)) if fin else v!r} > rounding slack {slack!r}"))
+    elif fam in ("exp", "cosh", "invpow", "pow"):
+        lo, hi = min(a, b), max(a, b)
+        sgn = 1.0 if a < b else -1.0
+        I, fmax, kappa = analytic(fam, params, lo, hi); I *= sgn
+        slack = (64 + 2 * dn) * EPS * wd * fmax * (1 + kappa) + 16 * EPS * abs(I) * (1 + kappa) + inh * fmax
+        if not warn and not (abs(v - I) <= 4 * abs(eps) + slack):
+            out.append((op + ":error-bound", f"{fam} {params}: |result - integral| = {abs(v - I)!r} > 4*|eps| + rounding = {4 * abs(eps) + slack!r} (result {v!r}, integral {I!r}, no warning)"))
+    return out
+
+
 def predicates(c, io):
     out = []
     if io.startswith(("CRASH", "SANITIZER", "TIMEOUT", "HARNESSERR")): return out
+    if c.line.startswith("seq "): return seq_predicates(c, io)
     op, a, b, eps, depth, fam, params, fx = parse_case(c.line)
     if io.startswith("EXIT"): return [(op + ":exit", "Integrate terminated the process")]
     if op == "findeps": return out
@@ -344,29 +567,57 @@ def predicates(c, io):
         x1, x2 = tokf(v1), tokf(v2)
         if not ((x1 != x1 and x2 != x2) or x2 == -x1): out.append(("swap:negates", f"Integrate(a,b) = {x1!r} but Integrate(b,a) = {x2!r}"))
         if n1 != n2 or w1 != w2: out.append(("swap:same-work", f"swapped limits changed the evaluation count or warning ({n1},{w1}) vs ({n2},{w2})"))
-        return out
     if op == "epssign":
         (v1, w1, n1, _), (v2, w2, n2, _) = calls
         x1, x2 = tokf(v1), tokf(v2)
         if not ((x1 != x1 and x2 != x2) or x1 == x2) or n1 != n2 or w1 != w2:
             out.append(("epssign:irrelevant", f"epsilon and -epsilon give {x1!r} ({n1} evals) vs {x2!r} ({n2} evals)"))
-        return out
-    v = tokf(calls[0][0]); warn = calls[0][1] == "1"
     if a == b: return out
-    X = max(abs(a), abs(b)); wd = abs(b - a)
-    if fam == "quintic":
-        I = exact_quintic(params, a, b); fmax = sum(abs(cf) * X ** k for k, cf in enumerate(params))
-        # a-priori rounding slack (DESIGN 5.3): ~25 eps per leaf relative to h*max|f| (function value, abscissa, panel
-        # rule, Richardson) summed over leaves (sum h = |b-a|) + one eps per level of the summation tree; factor >= 2 margin
-        slack = (64 + 2 * dn) * EPS * wd * fmax
-        if not (abs(Fraction(v) - I) <= Fraction(slack)) if v == v and abs(v) != math.inf else True:
-            out.append(("int:quintic-exact", f"polynomial of degree <= 5: returned {v!r}, exact integral {float(I)!r}, difference {float(abs(Fraction(v) - I)) if v == v and abs(v) != math.inf else v!r} > rounding slack {slack!r}"))
-    elif fam in ("exp", "cosh", "invpow", "pow"):
-        sgn = 1.0 if a < b else -1.0
-        I, fmax, kappa = analytic(fam, params, lo, hi); I *= sgn
-        slack = (64 + 2 * dn) * EPS * wd * fmax * (1 + kappa) + 16 * EPS * abs(I) * (1 + kappa)
-        if not warn and not (abs(v - I) <= 4 * abs(eps) + slack):
-            out.append(("int:error-bound", f"{fam} {params}: |result - integral| = {abs(v - I)!r} > 4*|eps| + rounding = {4 * abs(eps) + slack!r} (result {v!r}, integral {I!r}, no warning)"))
+    # value clauses on the first call (the requested a, b, eps)
+    v = tokf(calls[0][0]); warn = calls[0][1] == "1"; n = int(calls[0][2])
+    out += value_preds("int", a, b, eps, dn, fam, params, v, warn, max((n - 1) // 4, 1))
+    return out
+
+
+def seq_predicates(c, io):
+    """every call of a sequence must satisfy the clauses of a single call (whatever was called before it in the process)"""
+    out = []
+    if io.startswith("EXIT"): return [("seq:exit", "the library terminated the process")]
+    reqs = parse_seq(c.line); res = _split(io, "seq")
+    if not res or len(res) != len(reqs): return [("seq:output", "unexpected output shape")]
+    last = 0.0; seen = {}
+    for j, ((kind, a, b, eps, depth, fam, params, fx), (v, w, n, mm)) in enumerate(zip(reqs, res)):
+        v = tokf(v); n = int(n); warn = w == "1"; pmin, pmax = tokf(mm[0]), tokf(mm[1])
+        lo, hi = min(a, b), max(a, b); tag = f"seq:{kind}"
+        where = f"call {j + 1} ({kind}) of the sequence: "
+        if n and not (lo <= pmin and pmax <= hi):
+            out.append((tag + ":location", where + f"integrand evaluated in [{pmin!r},{pmax!r}], outside [{lo!r},{hi!r}]"))
+        if kind == "F":
+            last = v
+            if n != 3: out.append((tag + ":count", where + f"Find_Epsilon made {n} evaluations"))
+            continue
+        if eps == "@": eps = last
+        dn = max(depth, 0)
+        extra = 3 if kind == "M" else 0           # the string overload evaluates a, b, midpoint in Find_Epsilon first
+        bound = 2 ** (dn + 2) + 1 + extra
+        if a == b:
+            if n != 0 or v != 0.0: out.append((tag + ":equal-limits", where + f"equal limits returned {v!r} after {n} evaluations"))
+            continue
+        if n > bound: out.append((tag + ":count", where + f"{n} integrand evaluations exceed the bound {bound}"))
+        if n < 5 + extra: out.append((tag + ":count-min", where + f"only {n} evaluations for distinct limits"))
+        if kind == "M":
+            f, _ = parse_fexpr(fx, 0); eps = py_find_epsilon(f, lo, hi, 1e-9)
+        if eps == eps:
+            for sig, msg in value_preds(tag, a, b, eps, dn, fam, params, v, warn, max((n - extra - 1) // 4, 1)):
+                out.append((sig, where + msg))
+        # the same request made twice in one process must be answered identically; reversed limits negate
+        key = (kind, lo, hi, abs(eps) if eps == eps else "nan", dn, " ".join(fx))
+        if key in seen:
+            (pa, pv, pw, pn) = seen[key]
+            want = pv if pa == a else -pv
+            if not ((v != v and want != want) or v == want) or pn != n or pw != warn:
+                out.append((tag + ":repeat", where + f"the same request was answered {pv!r} ({pn} evaluations) earlier in the process and {v!r} ({n} evaluations) now" + ("" if pa == a else " (limits reversed: expected the negative)")))
+        else: seen[key] = (a, v, warn, n)
     return out
 
 
